@@ -57,6 +57,8 @@ def run(ctx, w):
     ctx.ok("K3", "readers", {"handler_functions_scanned": len(reach)})
     ctx.floor("K3", 3, "epilogue obligations")
 
+    ctx0 = ctx
+    ctx = shared.Deferred(ctx0, {"K4"}, shared.gc_verdict(ctx0, w, S, T, "K4s") if T.ok else None)
     ctx.rule("K4", "with no limit configured nothing is ever removed: the drain is conditional on the limit being Some")
     if T.ok:
         f = T.trim_fn
@@ -67,6 +69,7 @@ def run(ctx, w):
         c14.trim_rules(ctx, w, S, R, T)
     else:
         ctx.missing_anchor("K4", "trim machinery")
+    ctx = ctx0
     # rows scrolled off the top are kept, never overwritten (otherwise the view depends on whether the gc ran in between)
     from rules import c06
     up, down = c06.scroll_prims(w, S)
